@@ -991,9 +991,11 @@ class DocTest:
                         if DEBUG:
                             print('UNABLE TO CLEAN TRACEBACK. EXIT DUE TO DEBUG')
                             sys.exit(1)
-                        raise ValueError('Could not clean traceback: ex = {!r}'.format(_ex_dbg))
-                    else:
-                        self.failed_tb_lineno = found_lineno
+                        # The error was not raised from a line of the doctest
+                        # (e.g. by the capture stream, which the doctest
+                        # closed): it still is this part that failed.
+                        found_lineno = 1
+                    self.failed_tb_lineno = found_lineno
 
                     self.exc_info = (ex_type, ex_value, tb)
 
